@@ -24,8 +24,15 @@ def grid_plan(spec):
         windows = [("periodic", 0, 1)]
     else:
         d1 = L / (n1 - 1)
-        grids = [dict(n=n1, d=d1, lo=lo, boundary='no boundary'),
-                 dict(n=2 * n1 - 1, d=d1 / 2, lo=lo, boundary='no boundary')]
+        if spec.get('aniso'):
+            # three different spacings (a formula or operator that takes the
+            # spacing of another axis is then wrong by a non-converging 15-35 %)
+            d1 = (d1, 0.85 * d1, 1.15 * d1)
+            grids = [dict(n=n1, d=d1, lo=lo, boundary='no boundary'),
+                     dict(n=2 * n1 - 1, d=tuple(v / 2 for v in d1), lo=lo, boundary='no boundary')]
+        else:
+            grids = [dict(n=n1, d=d1, lo=lo, boundary='no boundary'),
+                     dict(n=2 * n1 - 1, d=d1 / 2, lo=lo, boundary='no boundary')]
         windows = []
         if n1 - 4 * m >= 3:
             windows.append(("interior", 2 * m, 1))
